@@ -93,6 +93,20 @@ impl Interval {
         }
     }
 
+    /// Builds an interval from two bounds that are expected to be ordered
+    ///
+    /// For very large angles, the quadrant of a bound cannot be determined
+    /// reliably in `f32`, so the "monotonic within a quadrant" branches of
+    /// `sin` and `cos` may see their endpoint values in the wrong order.
+    #[inline]
+    fn ordered(a: f32, b: f32) -> Self {
+        if a <= b {
+            Interval::new(a, b)
+        } else {
+            Interval::new(b, a)
+        }
+    }
+
     /// Returns the quadrant for trigonometric functions
     fn quadrant(angle: f32) -> Quadrant {
         match (angle * 2.0 / PI).floor().rem_euclid(4.0) as u8 {
@@ -151,18 +165,18 @@ impl Interval {
                 }
                 (Q1, Q1) | (Q2, Q2) => {
                     // decreasing quadrant
-                    Interval::new(self.upper.sin(), self.lower.sin())
+                    Self::ordered(self.upper.sin(), self.lower.sin())
                 }
                 (Q0, Q0) | (Q3, Q3) => {
                     // increasing quadrant
-                    Interval::new(self.lower.sin(), self.upper.sin())
+                    Self::ordered(self.lower.sin(), self.upper.sin())
                 }
                 (Q3, Q0) => {
                     if d >= PI {
                         Interval::new(-1.0, 1.0) // diameter >= 3*PI/2
                     } else {
                         // increasing
-                        Interval::new(self.lower.sin(), self.upper.sin())
+                        Self::ordered(self.lower.sin(), self.upper.sin())
                     }
                 }
                 (Q1, Q2) => {
@@ -170,7 +184,7 @@ impl Interval {
                         Interval::new(-1.0, 1.0) // diameter >= 3*PI/2
                     } else {
                         // decreasing
-                        Interval::new(self.upper.sin(), self.lower.sin())
+                        Self::ordered(self.upper.sin(), self.lower.sin())
                     }
                 }
                 (Q0 | Q3, Q1 | Q2) => {
@@ -203,24 +217,24 @@ impl Interval {
                 }
                 (Q2, Q2) | (Q3, Q3) => {
                     // increasing quadrant
-                    Interval::new(self.lower.cos(), self.upper.cos())
+                    Self::ordered(self.lower.cos(), self.upper.cos())
                 }
                 (Q0, Q0) | (Q1, Q1) => {
                     // decreasing quadrant
-                    Interval::new(self.upper.cos(), self.lower.cos())
+                    Self::ordered(self.upper.cos(), self.lower.cos())
                 }
                 (Q2, Q3) => {
                     if d >= PI {
                         Interval::new(-1.0, 1.0) // diameter >= 2*PI
                     } else {
-                        Interval::new(self.lower.cos(), self.upper.cos())
+                        Self::ordered(self.lower.cos(), self.upper.cos())
                     }
                 }
                 (Q0, Q1) => {
                     if d >= PI {
                         Interval::new(-1.0, 1.0) // diameter >= 3*PI/2
                     } else {
-                        Interval::new(self.upper.cos(), self.lower.cos())
+                        Self::ordered(self.upper.cos(), self.lower.cos())
                     }
                 }
                 (Q2 | Q3, Q0 | Q1) => {
